@@ -14,6 +14,8 @@ splitter, combiner).  Crashes and livelocks are detected on recorded runs by a w
 import FsVerif.Model.Config
 import FsVerif.Proofs.PrioReq
 import FsVerif.Proofs.BufExtra
+import FsVerif.Proofs.SlotWake
+import FsVerif.Proofs.Fleet
 namespace FsVerif.Props.C20
 open FsVerif
 
@@ -112,6 +114,20 @@ theorem buf_instant_finite {s : BufStore} (h : BufStore.ReachD s) : BufStore.qui
   rw [BufStore.fireAll_timers' _ _ hc hp'] at he
   have := (List.mem_filter.mp he).2
   simp at this; omega
+
+/-- the slotted conveyor store never takes one of its failure branches: `items.index(item)` in `move_to_ready_items` always finds the
+    item, its overflow guard never fires, `_trigger_reserve_get` never runs past the ready list — for every operation sequence (valid or
+    invalid calls, any clock moves) and every kernel event.  (`crashed` is set exactly in those branches of the model.) -/
+theorem slot_store_never_raises_internally (cfg : SlotCfg) (ops : List SlotBelt.Op) :
+    (SlotBelt.run (SlotBelt.init cfg) ops).crashed = false :=
+  SlotBelt.run_alive ops _ (SlotBelt.init_inv cfg) (SlotBelt.init_w cfg) (SlotBelt.init_bd cfg) rfl
+
+/-- BufferStore / the store inside a Fleet: the same (every reachable state is alive) -/
+theorem buf_store_never_raises_internally {s : BufStore} (h : BufStore.ReachD s) : s.crashed = false :=
+  (BufStore.reachD_binv h).alive
+
+theorem fleet_store_never_raises_internally {s : FleetStore} (h : FleetStore.ReachD s) : s.b.crashed = false :=
+  (FleetStore.reachD_kt h).core.alive
 
 example : validate {} = .ok := by decide
 example : validate { cap := .zero } = .rejected .construction .value := by decide
